@@ -371,9 +371,15 @@ def h_array(ctx, code, m, sym_at=None, shape="bcast"):
 
     n = ARRAY_ELEM[code]
     src = ARRAY_SRC[code] + ":145038"
+    if shape == "anysrc":
+        # the announce-to-self form from a device of any type (two solver digits): whatever it decodes to, several
+        # elements are never passed off as one
+        import symx
+
+        src = symx.sym_digits(ctx, "tt", 2) + ":145038"
     payload = array_payload(ctx, code, m, sym_at)
     # 'bcast': the device announces to itself (the usual array form); 'to': addressed to another device
-    head = "045  I --- " + src + (" --:------ " + src if shape == "bcast" else " 01:056789 --:------") + " " + code + " "
+    head = "045  I --- " + src + (" --:------ " + src if shape in ("bcast", "anysrc") else " 01:056789 --:------") + " " + code + " "
     line = head + f"{n * m:03d}" + " " + payload
     out, msg = decode_c01(ctx, line)
     if msg is None:
@@ -384,6 +390,10 @@ def h_array(ctx, code, m, sym_at=None, shape="bcast"):
         ctx.check(m == 1, "C05:array-decodes-to-a-list", info=f"{m} elements decoded as a {type(p).__name__}")
         return "ok:" + type(p).__name__
     ctx.check(len(p) == m, "C05:array-has-one-entry-per-element", info=f"{len(p)} for {m}")
+    if shape == "anysrc":
+        # for senders of other types only the shape of the result is claimed (how a lone element of such a sender is
+        # labelled is a separate, recorded question: see the UFC 3150 finding)
+        return f"ok:list[{len(p)}]"
     check_idx(ctx, code, payload, p)
     check_ranges(ctx, p)
     for i in range(min(m, len(p))):
@@ -457,9 +467,9 @@ def concrete_line(item):
     if h == "array":
         code, m = prm["code"], prm["m"]
         n = ARRAY_ELEM[code]
-        src = ARRAY_SRC[code] + ":145038"
+        src = (cex.get("tt") if prm.get("shape") == "anysrc" else ARRAY_SRC[code]) + ":145038"
         pay = array_payload(cex, code, m, prm.get("sym_at"))
-        addrs = src + (" --:------ " + src if prm.get("shape", "bcast") == "bcast" else " 01:056789 --:------")
+        addrs = src + (" --:------ " + src if prm.get("shape", "bcast") in ("bcast", "anysrc") else " 01:056789 --:------")
         return "045  I --- " + addrs + " " + code + " " + f"{n * m:03d}" + " " + pay, code, pay
     raise ValueError(h)
 
